@@ -134,17 +134,21 @@ func (ab *AccessBarrier) doCleanup() {
 	iter := ab.freeq.NewIterator(CompareBS, buf1)
 	defer iter.Close()
 
+	verifYield(vpAbC1, unsafe.Pointer(ab), nil, 0)
 	for iter.SeekFirst(); iter.Valid(); iter.Next() {
 		node := iter.GetNode()
 		bs := (*BarrierSession)(node.Item())
+		verifYield(vpAbC2, unsafe.Pointer(ab), unsafe.Pointer(bs), 0)
 		if bs.seqno != ab.freeSeqno+1 {
 			return
 		}
 
 		ab.freeSeqno++
 		ab.callb(bs.objectRef)
+		verifYield(vpAbC3, unsafe.Pointer(ab), unsafe.Pointer(bs), 0)
 		ab.freeq.DeleteNode(node, CompareBS, buf2, &ab.freeq.Stats)
 		ab.numFreed++
+		verifYield(vpAbC4, unsafe.Pointer(ab), unsafe.Pointer(bs), 0)
 	}
 }
 
@@ -152,7 +156,9 @@ func (ab *AccessBarrier) doCleanup() {
 func (ab *AccessBarrier) Acquire() *BarrierSession {
 	if ab.active {
 	retry:
+		verifYield(vpAbA1, unsafe.Pointer(ab), nil, 0)
 		bs := (*BarrierSession)(atomic.LoadPointer(&ab.session))
+		verifYield(vpAbA2, unsafe.Pointer(ab), unsafe.Pointer(bs), 0)
 		liveCount := atomic.AddInt32(bs.liveCount, 1)
 		if liveCount > barrierFlushOffset {
 			ab.Release(bs)
@@ -168,6 +174,7 @@ func (ab *AccessBarrier) Acquire() *BarrierSession {
 // Release marks leaving of an accessor in the skiplist
 func (ab *AccessBarrier) Release(bs *BarrierSession) {
 	if ab.active {
+		verifYield(vpAbR1, unsafe.Pointer(ab), unsafe.Pointer(bs), 0)
 		liveCount := atomic.AddInt32(bs.liveCount, -1)
 		if liveCount == barrierFlushOffset {
 			buf := ab.freeq.MakeBuf()
@@ -175,12 +182,16 @@ func (ab *AccessBarrier) Release(bs *BarrierSession) {
 
 			// Accessors which entered a closed barrier session steps down automatically
 			// But, they may try to close an already closed session.
+			verifYield(vpAbR2, unsafe.Pointer(ab), unsafe.Pointer(bs), 0)
 			if atomic.AddInt32(&bs.closed, 1) == 1 {
+				verifYield(vpAbR3, unsafe.Pointer(ab), unsafe.Pointer(bs), 0)
 				if !ab.freeq.Insert(unsafe.Pointer(bs), CompareBS, buf, &ab.freeq.Stats) {
 					panic("unable to insert barrier session into free list")
 				}
+				verifYield(vpAbR4, unsafe.Pointer(ab), unsafe.Pointer(bs), 0)
 				if atomic.CompareAndSwapInt32(&ab.isDestructorRunning, 0, 1) {
 					ab.doCleanup()
+					verifYield(vpAbR5, unsafe.Pointer(ab), unsafe.Pointer(bs), 0)
 					atomic.CompareAndSwapInt32(&ab.isDestructorRunning, 1, 0)
 				}
 			}
@@ -194,8 +205,11 @@ func (ab *AccessBarrier) Release(bs *BarrierSession) {
 // The caller should provide the destructor pointer for the new session.
 func (ab *AccessBarrier) FlushSession(ref unsafe.Pointer) {
 	if ab.active {
+		verifYield(vpAbF0, unsafe.Pointer(ab), nil, 0)
 		ab.Lock()
 		defer ab.Unlock()
+		defer verifYield(vpAbF3, unsafe.Pointer(ab), nil, 0)
+		verifYield(vpAbF1, unsafe.Pointer(ab), nil, 0)
 
 		bsPtr := atomic.LoadPointer(&ab.session)
 		newBsPtr := unsafe.Pointer(newBarrierSession())
@@ -206,6 +220,7 @@ func (ab *AccessBarrier) FlushSession(ref unsafe.Pointer) {
 		bs.seqno = ab.activeSeqno
 		ab.numAllocated++
 
+		verifYield(vpAbF2, unsafe.Pointer(ab), unsafe.Pointer(bs), 0)
 		atomic.AddInt32(bs.liveCount, barrierFlushOffset+1)
 		ab.Release(bs)
 	}
